@@ -82,6 +82,10 @@ impl RequestSender for ReqRespBehaviour {
     }
 }
 
+#[cfg(eigerco_lumina_verif)]
+#[path = "client_sim_verif_hooks.rs"]
+pub(crate) mod sim_verif_hooks;
+
 impl<S> HeaderExClientHandler<S>
 where
     S: RequestSender,
